@@ -17,7 +17,7 @@
    the size and the number of calls made must be those of run-time evaluation.
 3. Division / remainder by a constant zero in each constant context must be diagnosed
    (cc1 exits 1 with a file:line message), not crash."""
-import json, os, re, subprocess
+import concurrent.futures, json, os, re, subprocess
 import vt, cexpr
 from vt import Infra
 from cexpr import CT, lit, leaves, render, const_text, fconst
@@ -440,10 +440,6 @@ def run(ctx):
     q = ctx.quick
     tree = ctx.build()
     ctx.phase("build done")
-    cexpr.model_check(ctx, "ExprMC_quick.cfg" if q else "ExprMC.cfg",
-                      "eval2/eval_double/is_const_expr/write_gvar_data (ConstEval) do not compute the C11 value or type of a constant expression, or the array / VLA decision loses a side effect",
-                      ["ConstInv", "CaseInv", "EnumInv", "FltInv", "VlaInv", "BfInv"], workers=12 if q else 16, sensitivity=False,
-                      Shapes='{"bin","un","cast","cond","cc","case","enum","fcmp","d2l","d2r","d2u","fcc","fbin","fun","fcond","vla","bfinit","bfinitf"}')
     # sensitivity controls: the pinned folder (cast arm typed uint32_t, no re-wrapping) and the wrong variants of the
     # floating conversions, of is_const_expr and of the static bit-field store must each be rejected
     def control_cfg(name, consts, inv):
@@ -460,11 +456,19 @@ def run(ctx):
                 ("bfmask", dict(MUT='"bfmask"', Shapes='{"bfinit"}'), "BfInv")]
     if q:       # quick: the pinned folder and two of the six others, rotating with the seed; thorough: all
         controls = controls[:1] + [controls[1 + (2 * ctx.seed + d) % 6] for d in (0, 1)]
+    pool = concurrent.futures.ThreadPoolExecutor(4)     # the controls are small; they run beside the main model check
+    pending = []
     if not os.environ.get("VERIF_DEV_SKIP_MC"):
-        cfgs = [control_cfg(*c) for c in controls]
-        for name, ok in vt.pmap(lambda c: (c[0], ctx.tlc("expr", "ExprMC", c[1], workers=1, timeout=600, count=False, heap="1g").ok), cfgs, workers=4):
-            if ok:
-                raise Infra("sensitivity control failed: TLC accepts the wrong variant %s" % name)
+        pending = [(name, pool.submit(ctx.tlc, "expr", "ExprMC", c2, workers=1, timeout=600, count=False, heap="1g"))
+                   for name, c2 in [control_cfg(*c) for c in controls]]
+    cexpr.model_check(ctx, "ExprMC_quick.cfg" if q else "ExprMC.cfg",
+                      "eval2/eval_double/is_const_expr/write_gvar_data (ConstEval) do not compute the C11 value or type of a constant expression, or the array / VLA decision loses a side effect",
+                      ["ConstInv", "CaseInv", "EnumInv", "FltInv", "VlaInv", "BfInv"], workers=12 if q else 16, sensitivity=False,
+                      Shapes='{"bin","un","cast","cond","cc","case","enum","fcmp","d2l","d2r","d2u","fcc","fbin","fun","fcond","vla","bfinit","bfinitf"}')
+    for name, fut in pending:
+        if fut.result().ok:
+            raise Infra("sensitivity control failed: TLC accepts the wrong variant %s" % name)
+    pool.shutdown()
     ctx.phase("mc done")
     vec = cexpr.generate(ctx, FAMS, STRIDE if q else 1, 6 if q else 1, workers=12 if q else 16, minimum=1000, base=2, d2base=4)
     ctx.phase("gen done (%d vectors)" % len(vec))
